@@ -14,7 +14,7 @@ CFG = dict(
                    "block ids, index ids under explicit injectivity premises); byte encodings are C06's; the delimiter acts "
                    "before the model's input (CSV parsing), the harness varies it for real.",
         rule="per case one logical table with unique keys ingested 6 ways (rows permuted x run sizes huge/1/64/4096/random/1 x "
-             "workers 1/3/4/8/16 x delimiters , ; tab | x producer IngestTable or Sorter.AddRow+IngestTableFromSorter x separate "
+             "workers 1/3/4/8/16 x delimiters , ; tab | x CSV text styles (heavy quoting / hand-formatted raw / CRLF / no final newline) x producer IngestTable or Sorter.AddRow+IngestTableFromSorter x separate "
              "stores, the first two into one store) => one table sum, no new object on the second ingest; mutants (one cell, one "
              "column name, two columns swapped, key reversed or extended) => another sum; some cases also through wrgl commit "
              "from a branch file (unchanged / rewritten permuted / changed). Tables as in C01 (0..600 rows, 1..6 columns). "
